@@ -234,14 +234,20 @@ def generate(rng, tier, index):
                 decoys[cand] = ("k DECOY\n" if kind == "conf" else
                                 "<schema><key name='decoy'/></schema>\n"
                                 )
+    symlink = None
+    withkids = [r for r in res[1:] if r["children"]] or res[1:]
+    if withkids and rng.random() < 0.3:
+        r = rng.choice(withkids)
+        symlink = os.path.join(r["dir"], r["file"])
     plan = {"prop": ID, "kind": "scenario", "dirs": dirs, "files": files,
+            "symlink": symlink,
             "decoys": decoys, "cwd": cwd, "config_top": cfg_order[0],
             "config_order": cfg_order, "schema_top": sch["top"],
             "schema_files": sch_files, "types": sorted(types),
             "expect_k": expect_k, "expect_s": expect_s,
             "fragment_case": rng.choice(
                 ["include", "extends", "import-src", "loadurl-config",
-                 "loadurl-schema"])}
+                 "loadurl-schema", "loadurl-schema-same-loader"])}
     return plan
 
 
@@ -328,6 +334,25 @@ def materialise(plan, root, fragment=None, twin=False):
         os.makedirs(os.path.dirname(full), exist_ok=True)
         with open(full, "w", encoding="utf-8") as f:
             f.write(text)
+    link = plan.get("symlink")
+    if link:
+        # the fragment is a symbolic link to a file in an unrelated
+        # directory; decoys named like ITS children sit next to the target
+        lp = os.path.join(root, link)
+        tdir = os.path.join(root, "linktargets", "deep")
+        os.makedirs(tdir, exist_ok=True)
+        tp = os.path.join(tdir, os.path.basename(lp))
+        if not os.path.islink(lp):      # (re-materialising writes through it)
+            os.rename(lp, tp)
+            os.symlink(tp, lp)
+        for ln in plan["files"][link]:
+            if isinstance(ln, dict) and "rel" in ln["include"]:
+                dp = os.path.normpath(os.path.join(tdir,
+                                                   ln["include"]["rel"]))
+                if dp.startswith(root) and not os.path.exists(dp):
+                    os.makedirs(os.path.dirname(dp), exist_ok=True)
+                    with open(dp, "w", encoding="utf-8") as f:
+                        f.write("k DECOY\n")
 
 
 ENTRIES = ["abs-path", "rel-path", "rel-dot", "rel-updown", "url", "url1",
@@ -550,14 +575,26 @@ def _execute(plan, out, root, root_b, scratch):
         # ---- fragment identifiers ------------------------------------------------------
         fc = plan["fragment_case"]
         w.begin_op("fragment:" + fc)
-        if fc in ("loadurl-config", "loadurl-schema"):
+        if fc in ("loadurl-config", "loadurl-schema",
+                  "loadurl-schema-same-loader"):
             full = cfull if fc == "loadurl-config" else sfull
             url = "file://" + pathname2url(full) + "#frag"
             if fc == "loadurl-config":
                 o = ops.config_outcome(
                     lambda: ZConfig.loadConfig(schema, url))
-            else:
+            elif fc == "loadurl-schema":
                 o = ops.schema_outcome(lambda: ZConfig.loadSchema(url))
+            else:
+                # a SchemaLoader that has already loaded (and cached) the
+                # very resource, asked again with a fragment identifier
+                sl = ZConfig.loader.SchemaLoader()
+                first = ops.schema_outcome(lambda: sl.loadURL(
+                    "file://" + pathname2url(full)))
+                if not first["ok"]:
+                    violation("load-failed", "schema",
+                              "SchemaLoader.loadURL raised %s"
+                              % ops.brief(first))
+                o = ops.schema_outcome(lambda: sl.loadURL(url))
             applicable = True
         else:
             # rewrite the scenario with '#frag' on one reference
